@@ -232,7 +232,7 @@ class Check:
         out_lines = []
         for fid, (e, n, case) in sorted(known.items()):
             out_lines.append(f"KNOWN-FINDING: property={self.prop} {fid} {e.get('what', '')} ({n} instances)")
-        vdir = os.path.join(ROOT, 'replays', self.prop)
+        vdir = os.path.join(os.environ.get('QV_REPLAY_DIR') or os.path.join(ROOT, 'replays'), self.prop)
         nviol = 0
         shown = 0
         for feat, case, exp, obs, n in fresh:
@@ -264,8 +264,9 @@ class Check:
             'wall_s': round(wall, 2),
             'violations': nviol,
         }
-        os.makedirs(os.path.join(ROOT, 'evidence'), exist_ok=True)
-        evpath = os.path.join(ROOT, 'evidence', self.prop + '.json')
+        evdir = os.environ.get('QV_EVIDENCE_DIR') or os.path.join(ROOT, 'evidence')
+        os.makedirs(evdir, exist_ok=True)
+        evpath = os.path.join(evdir, self.prop + '.json')
         from .impl import jsonable
         with open(evpath, 'w') as f:
             json.dump(jsonable(ev), f, indent=1, sort_keys=True)
